@@ -9,6 +9,8 @@ kinds:  hole   n only changes a number written in the file            magnitudes
         grow   n is a nesting depth / item count: file size ~ n       1, 10, 100, 1000 (quick) .. 10^4, 10^5
         exp    n = expansion factor 10^k of an entity bomb            10^1 .. 10^6 (quick) .. 10^9
         one    no hole (cycles, external entities)                    1
+        mbox-empty-* (kind grow, MBOX_EMPTY): separator lines that delimit EMPTY messages, five layouts, n = 1..10^4 quick / ..10^5
+        archive-of-zeros templates (ZMAGS / TMAGS): n also = per-member limit, limit + 1, 10^8 in the quick tier
         .doc picture templates (kind hole, own lattice DOC_PIC_MAGS): n = number of picture headers inside one declared picture
         extent of a DOC_STREAM-byte stream; 1, 10, 100, 1000 (quick) .. 6000 (thorough); the file size does not depend on n
 """
@@ -707,9 +709,39 @@ def _(n):
 
 
 @template("mbox-from-lines-only", "grow", "mbox: one message followed by n bare 'From ' separator lines (n empty messages)",
-          mags=([1, 10, 100, 1000], [1, 10, 100, 1000, 10 ** 4, 10 ** 5]), expect="any")
+          mags=([1, 10, 100, 1000, 10 ** 4], [1, 10, 100, 1000, 10 ** 4, 10 ** 5]), expect="any")
 def _(n):
     return "t.mbox", (MBOX_MSG + "Bbcdfg\n\n").encode() + b"From a@b.example Thu Jan  1 00:00:00 1970\n" * n
+
+
+MBOX_SEP = b"From a@b.example Thu Jan  1 00:00:00 1970\n"
+MBOX_EMPTY_MAGS = ([1, 10, 100, 1000, 10 ** 4], [1, 10, 100, 1000, 10 ** 4, 10 ** 5])
+# separator lines that delimit EMPTY messages: where they stand (before / between / after real messages) and what separates them
+# (nothing, a blank line, CRLF line ends)
+MBOX_EMPTY = {
+    "first": ("n bare 'From ' separator lines (n empty messages), then one message",
+              lambda n, msg: MBOX_SEP * n + msg),
+    "blank": ("n times ['From ' line, blank line] (n empty messages), then one message",
+              lambda n, msg: (MBOX_SEP + b"\n") * n + msg),
+    "crlf": ("n 'From ' separator lines ending in CRLF, then one message with CRLF line ends",
+             lambda n, msg: MBOX_SEP.replace(b"\n", b"\r\n") * n + msg.replace(b"\n", b"\r\n")),
+    "between": ("n times [one message, one bare 'From ' separator line] (every second message is empty)",
+                lambda n, msg: (msg + MBOX_SEP) * n),
+    "only": ("n bare 'From ' separator lines and nothing else (no message at all)",
+             lambda n, msg: MBOX_SEP * n),
+}
+
+
+def _mk_mbox_empty_templates():
+    for key, (doc, fn) in MBOX_EMPTY.items():
+        def b(n, fn=fn):
+            return "t.mbox", fn(n, (MBOX_MSG + "Bbcdfg\n\n").encode())
+        template(f"mbox-empty-{key}", "grow", "mbox: " + doc, mags=(MBOX_EMPTY_MAGS[0][:4] if key == "between" else MBOX_EMPTY_MAGS[0],
+                                                                     MBOX_EMPTY_MAGS[1][:5] if key == "between" else MBOX_EMPTY_MAGS[1]),
+                 expect="any" if key == "only" else "ok")(b)
+
+
+_mk_mbox_empty_templates()
 
 
 @template("mbox-quoted-from", "grow", "mbox: one message whose body holds n '>From ' lines (mboxo quoting)",
@@ -1436,7 +1468,10 @@ def arch_size(data, n):
     return len(data) + (n if n <= MEMBER_LIMIT else 0)
 
 
-ZMAGS = ([10 ** k for k in range(0, 7)], [10 ** k for k in range(0, 10)] + [MEMBER_LIMIT, MEMBER_LIMIT + 1, 2 ** 31 - 1, 2 ** 31 + 1])
+# quick as well: the per-member limit, one byte more and 10^8 (a member that must be skipped costs nothing, however large it is; in a
+# one-member archive NO member is selected then)
+ZMAGS = ([10 ** k for k in range(0, 7)] + [MEMBER_LIMIT, MEMBER_LIMIT + 1, 10 ** 8],
+         [10 ** k for k in range(0, 10)] + [MEMBER_LIMIT, MEMBER_LIMIT + 1, 2 ** 31 - 1, 2 ** 31 + 1])
 
 
 @template("7z-zeros-lzma2", "hole", "7z: one member big.txt of n zero bytes, LZMA2 coder (declared sizes are honest)",
@@ -1491,7 +1526,7 @@ def _tar_zeros(n, comp):
     return c(hdr) + _CACHE[("tz", comp)] * q + (c(bytes(r)) if r else b"")
 
 
-TMAGS = ([10 ** k for k in range(0, 7)], [10 ** k for k in range(0, 10)] + [MEMBER_LIMIT, MEMBER_LIMIT + 1])
+TMAGS = ([10 ** k for k in range(0, 7)] + [MEMBER_LIMIT, MEMBER_LIMIT + 1, 10 ** 8], [10 ** k for k in range(0, 10)] + [MEMBER_LIMIT, MEMBER_LIMIT + 1])
 
 
 def _mk_tar_templates():
